@@ -257,6 +257,13 @@ func (fr *Frame) contractCall(st *State, fc *FuncContract, key string, args []Va
 		if pc, ok := loc.(ECall); ok && pc.Fun == "pointee" && len(pc.Args) == 1 {
 			// pointee(v): whatever the pointer inside interface value v points to, by the static type at the call site
 			v, err := env.EvalVal(pc.Args[0])
+			if err == nil && v.DynTyp == nil && v.Sort == SIface {
+				// unknown dynamic type: the object the interface value refers to, and nothing else
+				root := u.def("objroot", SInt, "(rootid (val "+v.T+"))")
+				fr.frameCheck(st, "(val "+v.T+")", pos)
+				u.havocObject(st, root)
+				continue
+			}
 			if err != nil || v.DynTyp == nil {
 				u.notes = append(u.notes, fmt.Sprintf("%s: pointee() of %s at %s has no static type: everything havocked", fr.oblFn, key, fr.pos(pos)))
 				fr.havocAllKeepLocals(st)
